@@ -25,11 +25,13 @@ LEVEL_TEXT = ("Bounded contract on Pipeline.map(..., run_folder=F): for generate
               "and the file system are outside the proof rung, so the property is decided on the bounded rung: "
               "'exploration'.")
 LEVEL_TEXT += (' Also proved: RunInfo.storage_class (the per-output storage choice) and _maybe_persist_memory (with persist_memory=True every storage array of the store is persisted exactly once before map returns, nothing otherwise, other entries untouched; StorageBase.persist is an assumed contract with a ghost counter).')
+LEVEL_TEXT += (" Also proved: load_outputs (one entry per requested name, in the order asked, each what the recorded store holds for it after _maybe_load_array; a single name is handed out unwrapped) relative to assumed pure contracts for Path, RunInfo.load, RunInfo.init_store, _load_from_store and _maybe_load_array.")
 LEVEL_NOTE = ("Bounds: programs of rtc.progs.gen_map_program (1..3 functions, rank<=2, sizes 1..3). Trusted: cloudpickle, "
               "json, the reference denotation. The fresh interpreter is /verif/.venv/bin/python with the same sys.path.")
 TECHNIQUE = ("bounded contract checking incl. a fresh-interpreter postcondition; FileArray._key_to_file (element -> file) "
              "discharged by z3 with lemma L4")
 TECHNIQUE += ('; RunInfo.storage_class and _maybe_persist_memory discharged by z3')
+TECHNIQUE += ('; load_outputs discharged by z3')
 EXPLANATION = LEVEL_TEXT
 RULE = ("program x storage configuration; distinct = distinct (program, storage); non-trivial = some output array has "
         ">=2 elements")
@@ -87,7 +89,9 @@ def proof_items():
             # the per-output storage choice recorded in the folder: one backend, else the output's entry, else ""
             ProofItem(small.storage_class, gen=small.sc_gen, registry=reg(small.STORAGE)),
             # persist_memory=True: every in-memory storage array of the store is persisted before map returns
-            ProofItem(small.maybe_persist_memory, gen=small.mpm_gen, registry=reg(small.PERSIST))]
+            ProofItem(small.maybe_persist_memory, gen=small.mpm_gen, registry=reg(small.PERSIST)),
+            # load_outputs: one entry per requested name, in the order asked, each what the recorded store holds for it
+            ProofItem(small.load_outputs_real, gen=small.lo_gen, call=small.lo_call, registry=reg(small.LOAD_OUTPUTS))]
 
 
 def _cases(tier, rng):
